@@ -56,6 +56,8 @@ static void* work(void* arg) {
     size_t n = cbor_serialize_alloc(t, &buf, &bs);
     h = mix(h, buf, n); h = mix(h, (unsigned char*)&n, sizeof n);
     size_t sz = cbor_serialized_size(t); h = mix(h, (unsigned char*)&sz, sizeof sz);
+    { unsigned char* bn = NULL; size_t nn = cbor_serialize_alloc(t, &bn, NULL);   /* the size out-parameter is optional */
+      h = mix(h, (unsigned char*)&nn, sizeof nn); if (bn) { h = mix(h, bn, nn); free(bn); } }
     struct cbor_load_result res;
     cbor_item_t* back = cbor_load(buf, n, &res);
     h = mix(h, (unsigned char*)&res.read, sizeof res.read);
